@@ -78,6 +78,10 @@ func MergeNodes(left, right Node, document *Document) (Node, error) {
 
 	r := DeepCopy(left, document)
 
+	// A child that only the right has may be a husband, wife or child node of a
+	// family, these need to know the family they will belong to.
+	family, _ := r.(*FamilyNode)
+
 	for _, child := range right.Nodes() {
 		for _, n := range r.Nodes() {
 			if n.Equals(child) {
@@ -88,7 +92,7 @@ func MergeNodes(left, right Node, document *Document) (Node, error) {
 			}
 		}
 
-		r.AddNode(DeepCopy(child, document))
+		r.AddNode(deepCopyForFamily(child, document, family))
 	next:
 	}
 
